@@ -79,6 +79,17 @@ def run(chk):
                 else:
                     r2.ok("PooledClient.%s: handler `except %s` lets ASYNC through" % (f.name, ", ".join(names)), sample=False)
     r2.count("PooledClient handlers inspected", n_h)
+    # hand-made brackets (client_pool.get() ... release / destroy in the method itself): the interruption must not skip
+    # the give-back either
+    from . import pooled as pooled_an
+
+    for name, runs in sorted(pooled_an.analyse_holds(prog).items()):
+        m = pooled.methods[name]
+        probs = pooled_an.hold_problems(runs, ("interrupt",))
+        for key, msg in probs:
+            r2.fail("PooledClient.%s:%s" % (name, key), "PooledClient.%s checks its client out with client_pool.get(): %s" % (name, msg), fn=m, node=m.node)
+        if not probs:
+            r2.ok("PooledClient.%s: checks the client out itself; an interruption of the call on it still passes release / destroy" % name)
 
     from . import rules_C09, report
 
